@@ -329,6 +329,27 @@ impl FsModel {
         });
       }
     }
+    // one file lagging behind: every choice of one dirty file while all other files are fully
+    // persisted and every directory operation is durable (a log whose tail is lost or torn
+    // under a manifest that made it, and the like)
+    let mut order: Vec<usize> = (0..per_file.len()).collect();
+    order.sort_by_key(|&n| per_file[n].len());      // files with few states first (log, manifest)
+    'one: for n in order {
+      let choices = &per_file[n];
+      for c in choices.iter() {
+        if out.len() >= 3 * cap {
+          break 'one;
+        }
+        out.push(Descriptor {
+          dir: self.dirlog.len(),
+          files: dirty
+            .iter()
+            .enumerate()
+            .map(|(m, &i)| if m == n { (i, c.0, c.1) } else { (i, self.inos[i - 1].ops.len(), 0) })
+            .collect(),
+        });
+      }
+    }
     while out.len() < cap {
       let d = dirs[r.gen_range(0..dirs.len())];
       out.push(Descriptor {
